@@ -12,6 +12,7 @@ from hypothesis import strategies as st
 import common
 import farm
 import farmcheck
+import zoo
 import expmodel
 import p21gen
 import p21render
@@ -239,7 +240,7 @@ def main(tier, seed):
                          case_fn=case,
                          confirm_fn=lambda lib, f, wd: bool(reoracle(lib, f, wd)),
                          replay_files=lambda f: {"input.p21": f["text"], "case.json": json.dumps({"pop": f["pop"], "target": f["target"], "strict": f["strict"], "variant": f.get("variant", "$")})},
-                         schema_cfg=c01.SCHEMA_CFG, min_cases=200)
+                         schema_cfg=c01.SCHEMA_CFG, extra_schemas=[zoo.ZOO], min_cases=200)
 
 
 def replay(path):
